@@ -172,6 +172,9 @@ def _find_terminal_instruction(snapshot, ctls, start, end, rst_handler, ctl=None
     while address < end:
         i_addr, size, max_count, op_id = next(decode(snapshot, address, address + 1, rst_handler))[:4]
         if address + size > end:
+            if ctl is None:
+                for a in range(address, end):
+                    ctls.pop(a, None)
             return end
         address += size
         if ctl is None:
